@@ -261,8 +261,17 @@ def check_fault(design, kind, idx):
     results = {}
     for who in ('sanity_check', 'Simulation', 'FastSimulation', 'CompiledSimulation',
                 'Simulation|foreign', 'FastSimulation|foreign', 'CompiledSimulation|foreign',
-                'sanity_check|prechecked', 'Simulation|prechecked', 'FastSimulation|prechecked'):
+                'sanity_check|prechecked', 'Simulation|prechecked', 'FastSimulation|prechecked',
+                'Simulation|postsynth', 'FastSimulation|postsynth'):
         block = designs.build(design)
+        if who.endswith('|postsynth'):
+            # the fault is injected into the block synthesize() returned (a PostSynthBlock is checked like any other)
+            if kind not in ('unconnected_wire', 'duplicate_name', 'two_drivers', 'undriven', 'no_bitwidth_wire'):
+                continue
+            try:
+                block = pyrtl.synthesize(block=block)
+            except accepted:
+                continue
         if who.endswith('|prechecked'):
             # a history: the healthy block is checked and simulated first, the fault comes afterwards
             try:
